@@ -2,6 +2,7 @@
    1 < phi, Euler's theorem for N as an explicit premise (true for N = p q; primality of generated p, q is GMP's), b, c
    coprime to N. *)
 From ZK Require Import Cl ClArith ClSig.
+From ZK Require Import ClCodec.
 From ZK Require Import ClGroup ClSpok ClDisclose.
 
 (* every signature sign_multiattr returns -- any number of attributes in [0, 2^lm), any bases coprime to N, any draws --
@@ -115,3 +116,13 @@ Check (C13_disclose_verify_complete :
     (forall j, In j U -> nth (N.to_nat j) msgs' 0%Z = 1%Z) /\
     verify_multiattr CS sg pk bases' msgs' = Ok true).
 Print Assumptions C13_disclose_verify_complete.
+
+(* the byte encoding of a signature decodes to the same signature *)
+Theorem C13_sig_codec_roundtrip :
+  forall CS sg b, (0 <= s_e sg)%Z -> (0 <= s_s sg)%Z -> (0 <= s_v sg)%Z ->
+  sig_to_bytes CS sg = Ok b -> sig_from_bytes CS b = Ok sg.
+Proof. exact sig_codec_roundtrip. Qed.
+Check (C13_sig_codec_roundtrip :
+  forall CS sg b, (0 <= s_e sg)%Z -> (0 <= s_s sg)%Z -> (0 <= s_v sg)%Z ->
+  sig_to_bytes CS sg = Ok b -> sig_from_bytes CS b = Ok sg).
+Print Assumptions C13_sig_codec_roundtrip.
